@@ -21,9 +21,10 @@ CLAIMED["C04"] = dict(
          "prefix and bitwise mask semantics, malformed fields never match, an IPv4-mapped peer gets the verdict of its IPv4 address, "
          "and in the accept-path model a deny precedes the TLS answer / any QUIC codec. Tied to rules.rs / core.rs by ~100k differential "
          "evaluations per run through RulesEngine::evaluate and Core::evaluate_connection_rules, rules files through the real "
-         "deserialiser, and a live-listener probe (denied peer sees EOF and no ServerHello byte).",
+         "deserialiser, and live listeners (suite c04live: rule lists on the real TCP and QUIC accept paths, 127.0.0.1 and dual-stack, TCP "
+         "ClientHellos with chosen randoms, QUIC handshakes whose random the client reads back; admitted / dropped compared with the model).",
     note="Trusted: Lean kernel, harness/door, ipnet's CIDR parser (parsed CIDRs are model inputs), TOML parsing (toml_edit), "
-         "the accept-path step list is a transcription tied only by the TCP probe; QUIC ordering is read from the code.",
+         "the accept-path step list is a transcription tied by the live suites (samples).",
 )
 CLAIMED["C11"] = dict(
     text="Unbounded Lean theorems: the serialised echo verifies under RFC 1071 for every payload up to 65535 bytes, including "
@@ -58,9 +59,10 @@ CLAIMED["C12"] = dict(
          "(loop_segmentation_invariant), never another value (loop_absent_never_wrong), and prebuffer ++ unread = stream "
          "(loop_conserves); the replay returns prebuffer then socket bytes for all read sizes (replay_transparent/complete). Tied to "
          "tls_listener.rs + tls-parser by ~10k extraction cases per run (the tie already corrected the model's record-length limit) and "
-         "the real loop over loopback TCP.",
+         "the real loop over loopback TCP; live (suite c12live): the random the real listener hands to its connection rules equals "
+         "bytes 11..43 of segmented rustls ClientHellos on TCP and the client's own SSL_get_client_random on QUIC.",
     note="Trusted: Lean kernel, harness/door, tls-parser internals beyond the modelled walk, rustls on the replayed bytes, BoringSSL's "
-         "client random on QUIC. Records whose first handshake message is not a ClientHello are outside the model.",
+         "client random on QUIC (compared between client and endpoint, not parsed). Records whose first handshake message is not a ClientHello are outside the model.",
 )
 CLAIMED["C15"] = dict(
     text="Unbounded Lean theorems about the SOCKS5 client model: every message the client can write is the image of an encoder that "
@@ -79,7 +81,9 @@ CLAIMED["C05"] = dict(
          "channel and certificate identity; an SNI designating nothing is refused; the protocol is the best of offered, enabled and "
          "channel-permitted ones, HTTP/1.1 only for an empty offer; unknown ALPNs are ignored; TCP never yields HTTP/3; a failed reload "
          "keeps the old configuration and every selection in a history is answered from exactly one configuration. Tied to "
-         "tls_demultiplexer.rs / core.rs by ~28k differential selections per run, reload histories and a concurrent reload/select suite.",
+         "tls_demultiplexer.rs / core.rs by ~24k differential selections per run, reload histories, a concurrent reload/select suite, and "
+         "live TCP and QUIC clients (suite c05live) that observe the certificate presented, the protocol negotiated and the channel that "
+         "answers, before and after a hot reload; on QUIC (quic_always_h3, quic_designated_host) the designated entry is served over HTTP/3.",
     note="Trusted: Lean kernel, harness/door, rustls/BoringSSL certificate presentation, RwLock atomicity (exercised). On TCP an offer "
          "containing h3 next to http/1.1 selects h3 and is then refused by the acceptor rather than served over http/1.1 - consistent "
          "with 'HTTP/3 is never selected on TCP'; TCP clients do not offer h3.",
@@ -101,7 +105,8 @@ CLAIMED["C02"] = dict(
          "equal the bytes forwarded, EOF is passed on only when drained and Finished means everything was delivered and credited, "
          "restarts lose nothing, nothing is issued after a failure; duplex: Ok iff both directions finished, an error stops both. Tied "
          "to pipe.rs by replaying the call log of the real DuplexPipe (scripted endpoints, paused clock) through the machine, which "
-         "must predict every call, plus a direct byte/credit/order oracle on the log.",
+         "must predict every call, plus a direct byte/credit/order oracle on the log; and by live CONNECT tunnels with patterned data "
+         "through the real HTTP/1.1, HTTP/2 (suite c02live) and HTTP/3 (suite c02h3, real QUIC listener) codecs and the real forwarder.",
     note="Trusted: Lean kernel, harness/door (scripted Source/Sink implement the crate-private traits inside lib/src/verif.rs), "
          "cancel-safety of real sources, h2/quiche flow-control internals (consume(n) -> WINDOW_UPDATE n), kernel TCP. Cancellation of a "
          "pending flush() is not modelled (scripts use instantaneous flushes).",
@@ -111,8 +116,10 @@ CLAIMED["C14"] = dict(
          "idle_not_early - a tunnel closed at c had no transfer in [c - T, c], so traffic at least every T (even exactly at the deadline) "
          "never closes it; idle_bound_2T - after the last transfer at a the tunnel is closed at some c with a + T < c <= a + 2T. Tied to "
          "pipe.rs by comparing, for thousands of scripted activity patterns on delays {0, T/4, .., T-1, T, T+1, .., 2T+1, 3T}, the virtual "
-         "time at which the real exchange() returns TimedOut with the model fed with the logged transfer times. The establishment "
-         "timeout (connect) is exercised in the C10 suite; the TLS-handshake timeout is a tokio timeout wrapper read from core.rs.",
+         "time at which the real exchange() returns TimedOut with the model fed with the logged transfer times. Establishment timeout: "
+         "establishment_timeout_reported / _in_time_connected / _destination_independent about the request-path model, tied by suite c14est "
+         "(scripted connector completing before / at / after the timeout or never, literal and host-name destinations, HTTP/1.1 and "
+         "HTTP/2; response and drop of the attempt). TLS-handshake timeout: observed on the live listener (suite c14live, wall clock).",
     note="Trusted: Lean kernel, harness/door, tokio's paused clock and timer wheel; with a real clock timers fire late by scheduling "
          "latency (not modelled). Release of sockets/tasks on timeout = drop of the futures (Rust ownership), observed only as "
          "'no call after the exchange ended' in the logs.",
@@ -147,7 +154,7 @@ CLAIMED["C01"] = dict(
          "own. Tied to tunnel.rs / http_codec.rs / core.rs by ~1.5k real HTTP/1.1 and multiplexed HTTP/2 sessions per run over in-memory "
          "transports with a scripted forwarder recording every outbound call.",
     note="Trusted: Lean kernel, harness/door (forwarder injection hook in Core::make_forwarder), httparse/h2/http header handling, "
-         "HTTP/3 (same Tunnel code, codec not driven).",
+         "quiche. HTTP/3 sessions go through the real QUIC listener (suite c01h3, a sample under the wall clock) and answer the same model.",
 )
 CLAIMED["C10"] = dict(
     text="Unbounded Lean theorems: every CONNECT gets exactly one final response; it is 200, 407+challenge or 502 with 300/301/302 or "
@@ -156,7 +163,7 @@ CLAIMED["C10"] = dict(
          "502; look-alike names are ordinary hosts; CONNECT without a port is refused 502/300 with no attempt; completion within the "
          "establishment timeout gives 200, later gives 502/302. Tied to the code by the same real-session suite as C01.",
     note="Trusted: Lean kernel, harness/door, tools/extract.py (regex translation of the two match tables), http crate authority parsing "
-         "(parsed view is a model input), HTTP/3 not driven.",
+         "(parsed view is a model input); HTTP/3 is driven live (suite c10h3) with immediate connect outcomes only.",
 )
 CLAIMED["C07"] = dict(
     text="Unbounded Lean theorems about the UDP multiplexer model (the pipe's flow table coupled to the forwarder's socket table, in a "
@@ -170,7 +177,8 @@ CLAIMED["C07"] = dict(
          "the real udp_pipe::DuplexPipe + direct forwarder over loopback sockets under a paused clock, observed after every operation.",
     note="Trusted: Lean kernel, harness/door, Linux loopback UDP and tokio timer semantics as listed in the evidence. Operations are atomic "
          "in the model; a tick landing inside one datagram's processing is a runtime interleaving the suite cannot exhibit (partial there). "
-         "The SOCKS5 multiplexer shares the contract but is not driven here.",
+         "The SOCKS5 multiplexer has its own model (TT/Model/UdpSocks.lean: one association per client source, released with its last "
+         "flow), theorems and suite (c07socks, a SOCKS5 proxy of the harness).",
 )
 CLAIMED["C16"] = dict(
     text="Unbounded Lean theorems about a model that keeps the live objects (sessions holding a session guard, tunnels holding a TCP "
@@ -185,7 +193,8 @@ CLAIMED["C16"] = dict(
          "after every event and the real metrics listener (GET /metrics, /health-check, another path) over TCP.",
     note="Trusted: Lean kernel, harness/door, prometheus text encoding, loopback socket behaviour. The byte-direction-to-series mapping "
          "is calibrated per run, not fixed (code and METRICS.md disagree on it, see DESIGN.md). TCP idle expiry only with generous "
-         "advances (C14 covers its timing). HTTP/3, SOCKS5, ICMP and the non-tunnel channels are not driven.",
+         "advances (C14 covers its timing). HTTP/3 sessions are outside the model and checked directly on the live listener (suite "
+         "c16h3); ICMP multiplexer traffic where raw sockets are permitted; the SOCKS5 TCP path and the non-tunnel channels are not driven.",
 )
 CLAIMED["C17"] = dict(
     text="Unbounded Lean theorems about the forwarded-response sink under the pipe's write / wait / write-again loop, with a client-side "
@@ -200,7 +209,8 @@ CLAIMED["C17"] = dict(
          "exchanges per run through the real into_forwarded source/sink under the real DuplexPipe, mutated streams for panics, and live "
          "non-CONNECT requests through real HTTP/1.1 and HTTP/2 sessions to a loopback origin.",
     note="Trusted: Lean kernel, harness/door, httparse as re-written for the generated grammar, http crate URI parsing, the real codecs "
-         "behind the responder only in the live runs, HTTP/3 not driven. One open known finding (HTTP/2-3 request body without "
+         "behind the responder only in the live runs (HTTP/1.1, HTTP/2 in process; HTTP/3 through the real QUIC listener, suite c17h3). "
+         "One open known finding (HTTP/2-3 request body without "
          "Content-Length is forwarded unframed), printed as KNOWN-FINDING on every run.",
 )
 CLAIMED["C19"] = dict(
@@ -209,7 +219,8 @@ CLAIMED["C19"] = dict(
          "nobody is notified without a submission; completion answers done iff no guard is outstanding and stays enabled; a registration "
          "after completion started gets no guard. Tied to shutdown.rs by executing every operation sequence up to length 6 (7) over 3 "
          "participants plus random longer histories on the real Shutdown with hand-polled futures, and by live HTTP/1.1 / HTTP/2 sessions "
-         "that must wind down on submit before completion() returns.",
+         "that must wind down on submit before completion() returns, and by the live listener with HTTP/3 sessions (suite c19live): every "
+         "QUIC connection must be closed by the endpoint after the submission and completion() must return.",
     note="Trusted: Lean kernel, harness/door, tokio broadcast/mpsc semantics (the model's reading of them is what the exhaustive "
          "sequences compare). Process exit and lock-across-await effects in main.rs are outside the model.",
 )
@@ -221,7 +232,7 @@ CLAIMED["C18"] = dict(
          "path and headers and carries X-Original-Protocol. Tied to the code by ~2.9k differential cases per run (demux table, real "
          "HTTP/1.1 and HTTP/2 speedtest/ping sessions counted under a paused clock, a real loopback origin for the reverse proxy under "
          "both egress policies, with an authenticator configured and no credentials sent).",
-    note="Trusted: Lean kernel, harness/door, Rust's integer parser as modelled, http crate URI handling, HTTP/3 not driven. The reverse "
+    note="Trusted: Lean kernel, harness/door, Rust's integer parser as modelled, http crate URI handling. HTTP/3 is driven live (suite c18h3). The reverse "
          "proxy's fixed destination is a code-reading fact exercised by the run, not a theorem about client influence.",
 )
 CLAIMED["C20"] = dict(
